@@ -16,6 +16,12 @@ CHECKS = {
  "C03": ("complete enumeration of ordered variable-list pairs x storage modes x operators with a canonical-layout and reference-AD oracle",
          "Exhaustive over the layout space of a 4-name (quick) / 5-name (thorough) pool: every ordered list pair, shared/unshared/zero-padded storage, + - * / % and ==, Dual and Dual2; coefficient values are sampled.",
          "DESIGN.md 3/C03", TRUST),
+ "C09": ("complete enumeration of labelled trees (n<=4 quick, n<=5 thorough) x orientations x quote orders x bases, plus random trees to n=12 and derived invalid sets, against BFS path products and a union-find validity oracle",
+         "Exhaustive over the finite structure space of small markets, sampled for n up to 12 and for rates; every one of the n^2 rates of every market is judged. The triangulation trace hook shows how many distinct solver paths were driven.",
+         "DESIGN.md 3/C09", TRUST),
+ "C10": ("closed-form sensitivity oracle for every cross x quote variable at orders 1 and 2; history checker comparing the object after every operation with a fresh build from the model's latest quotes and bit-comparing state across refused updates",
+         "Runtime oracle + offline-style history checking at the API boundary over sampled markets and operation sequences of length 1-30.",
+         "DESIGN.md 3/C10", TRUST),
  "C17": ("complete enumeration of stored-list x requested-list pairs with a name-keyed lookup oracle; manifold product rule against reference AD",
          "Exhaustive over (stored list, requested list) on a small pool for gradient1/gradient2/gradient1_manifold (exact comparison), sampled for the product-rule identity.",
          "DESIGN.md 3/C17", TRUST),
